@@ -189,7 +189,8 @@ class OrdAnalysis:
             if root and root in self.env:
                 self.env[root] = self.env[root].with_(order=UNKNOWN, why=f"element store {src(target)}")
         elif isinstance(target, ast.Attribute):
-            pass
+            if isinstance(target.value, ast.Name) and target.value.id == "self":
+                self.env["self." + target.attr] = k
 
     # ------------------------------------------------------------------ expressions
     def kind(self, e) -> Kind:
@@ -247,6 +248,8 @@ class OrdAnalysis:
                 return base.inner.with_(alias=base.alias)
             return Kind(UNKNOWN, None, f"element of {src(e.value)}", base.alias)
         if isinstance(e, ast.Attribute):
+            if isinstance(e.value, ast.Name) and e.value.id == "self" and ("self." + e.attr) in self.env:
+                return self.env["self." + e.attr]
             self.kind(e.value)
             return UNK
         if isinstance(e, ast.BinOp):
@@ -257,13 +260,14 @@ class OrdAnalysis:
                     return Kind(SETK, None, "set algebra", frozenset(), None, True)
             if isinstance(e.op, ast.Add) and l.order == r.order == UNKNOWN:
                 return UNK
-            if isinstance(e.op, (ast.Mult, ast.Div)) and (_is_pos_const(e.right) and l.order in (ASC, DESC)):
-                return l.with_(why=l.why + " scaled by a positive constant", fresh=True, alias=frozenset())
-            if isinstance(e.op, ast.Mult) and isinstance(e.right, (ast.Name, ast.Attribute)) and l.order in (ASC, DESC):
-                # multiplication by a named constant: resolved by caller-supplied positivity table
+            if isinstance(e.op, (ast.Mult, ast.Div)) and _is_pos_const(e.right):
+                return l.with_(fresh=True, alias=frozenset())       # scaling by a positive constant keeps the order kind
+            if isinstance(e.op, ast.Mult) and isinstance(e.right, (ast.Name, ast.Attribute)):
                 nm = src(e.right)
                 if nm in POSITIVE_NAMES:
-                    return l.with_(why=l.why + f" scaled by {nm}>0", fresh=True, alias=frozenset())
+                    return l.with_(fresh=True, alias=frozenset())
+            if isinstance(e.op, ast.Mult) and (_is_pos_const(e.left) or src(e.left) in POSITIVE_NAMES):
+                return r.with_(fresh=True, alias=frozenset())
             return UNK
         if isinstance(e, ast.UnaryOp):
             k = self.kind(e.operand)
@@ -357,6 +361,8 @@ class OrdAnalysis:
             if f.id in ("set", "frozenset"):
                 return Kind(SETK, None, "set()", frozenset(), None, True)
             if f.id == "range":
+                if any(isinstance(a, ast.Starred) for a in e.args):
+                    return Kind(UNKNOWN, None, "range with unknown step", frozenset(), None, True)
                 if len(e.args) <= 2 or _is_pos_const(e.args[2]):
                     return Kind(ASC, None, "range", frozenset(), None, True)
                 return Kind(UNKNOWN, None, "range with step", frozenset(), None, True)
@@ -386,8 +392,10 @@ class OrdAnalysis:
                     return k
                 return Kind(ASC, None, "np.unique", frozenset(), None, True)
             if dotted in ("numpy.arange",):
+                if any(isinstance(a, ast.Starred) for a in e.args) or _has_kw(e, "step"):
+                    return Kind(UNKNOWN, None, "np.arange with unknown step sign (monotone, direction unknown)", frozenset(), None, True)
                 return Kind(ASC, None, "np.arange", frozenset(), None, True) if len(e.args) <= 2 or _is_pos_const(e.args[2]) \
-                    else Kind(UNKNOWN, None, "np.arange(step?)", frozenset(), None, True)
+                    else Kind(UNKNOWN, None, "np.arange with unknown step sign (monotone, direction unknown)", frozenset(), None, True)
             if dotted in ("numpy.linspace",):
                 return Kind(UNKNOWN, None, "np.linspace (monotone, direction unknown)", frozenset(), None, True)
             if dotted in ("numpy.array", "numpy.asarray"):
